@@ -215,6 +215,8 @@ Definition validate_raw (bs_tag bl_tag cs_tag : bytes) (want_bs : option bytes) 
   match find_byte SOH d with
   | None => Err
   | Some bs_end =>
+      (* d[len(bsQ):bsEnd]: a tag containing the delimiter makes this slice panic *)
+      if Nat.ltb bs_end (length bsq) then Panic else
       let bs_val := skipn (length bsq) (firstn bs_end d) in
       let blq := bl_tag ++ [EQS] in
       let rest := skipn (bs_end + 1) d in
@@ -222,6 +224,7 @@ Definition validate_raw (bs_tag bl_tag cs_tag : bytes) (want_bs : option bytes) 
       match find_byte SOH rest with
       | None => Err
       | Some bl_end =>
+          if Nat.ltb bl_end (length blq) then Panic else
           let bl_val := skipn (length blq) (firstn bl_end rest) in
           let offset := (bs_end + 1 + bl_end + 1)%nat in
           if negb (N.eqb (last d 0) SOH) then Err else
